@@ -37,10 +37,17 @@ def describe(case, obs):
     return f"face_connections={case['dict']} axes={case['axes']} faces={case['faces']} -> impl {obs}"
 
 
-def mk(tbl, axes=("X", "Y"), nfaces=2, facedim="face", dsdims=None, extra_dict=None):
+def mk(tbl, axes=("X", "Y"), nfaces=2, facedim="face", dsdims=None, extra_dict=None, labels=None):
     d = [[facedim, tbl]] + (extra_dict or [])
     return {"dict": d, "dsdims": dsdims if dsdims is not None else ["face", "y", "x"],
-            "faces": list(range(nfaces)), "axes": list(axes)}
+            "faces": list(labels) if labels is not None else list(range(nfaces)), "axes": list(axes),
+            "labelled": labels is not None}
+
+
+def relabel(tbl, labels):
+    """the table with face i called labels[i] (keys and link targets)"""
+    return [[labels[f], [[a, [None if l is None else [labels[l[0]] if 0 <= l[0] < len(labels) else l[0], l[1], l[2]]
+                              for l in lr]] for a, lr in fal]] for f, fal in tbl]
 
 
 def all_2face_1axis():
@@ -117,6 +124,15 @@ def generate(rng, tier):
         e1 = edits(rng, t, nf, axes[:2])
         cases.append(mk(e1, axes=axes, nfaces=nf))
         cases.append(mk(edits(rng, e1, nf, axes[:2]), axes=axes, nfaces=nf))
+    # datasets whose faces carry other labels than 0..n-1 (1-based tiles, a subset of a larger set, any
+    # order): a face exists when the dataset's face coordinate holds its label
+    for _ in range(n_rand // 3):
+        nf = rng.randint(1, 4)
+        labels = rng.sample(range(0, 8), nf)
+        t = random_reciprocal(rng, nf)
+        cases.append(mk(relabel(t, labels), labels=labels))                 # reciprocal over the labels
+        cases.append(mk(t, labels=labels))                                  # the same, naming positions
+        cases.append(mk(relabel(edits(rng, t, nf, ("X", "Y")), labels), labels=labels))
     # malformed stream
     base = random_reciprocal(rng, 2)
     cases.append(mk(base, extra_dict=[["tile", base]]))                    # two face dimensions
@@ -166,6 +182,8 @@ def run_impl(case):
     sizes = {"face": n, "y": 2, "x": 2}
     dims = [d for d in case["dsdims"]]
     ds = xr.Dataset({"v": (dims, np.zeros([sizes.get(d, 2) for d in dims]))})
+    if case.get("labelled") and "face" in ds.dims:
+        ds = ds.assign_coords(face=("face", list(case["faces"])))
     coords = {}
     for ax in case["axes"]:
         d = ax.lower()
